@@ -34,6 +34,15 @@ fn strange_string(r: &mut Rng) -> String {
     (0..n).map(|_| *r.pick(pool)).collect()
 }
 
+/// `Option<bool>` as JSON (`true` / `false` / `null`)
+fn jopt(v: Option<bool>) -> &'static str {
+    match v {
+        Some(true) => "true",
+        Some(false) => "false",
+        None => "null",
+    }
+}
+
 fn main() {
     let o = parse_opts();
     let with_rustc = o.extra.iter().any(|a| a == "--rustc");
@@ -118,8 +127,8 @@ fn main() {
             if a.map_or(true, |x| x != expect) || c.map_or(false, |x| x != expect) {
                 writeln!(
                     findings,
-                    "{{\"kind\":\"literal-matches-wrong-string\",\"literal\":{},\"rendered\":{},\"string\":{},\"expected\":{expect},\"regex_crate\":{:?},\"runtime_matcher\":{:?}}}",
-                    json_str(s), json_str(&re), json_str(w), a, c
+                    "{{\"kind\":\"literal-matches-wrong-string\",\"literal\":{},\"rendered\":{},\"string\":{},\"expected\":{expect},\"regex_crate\":{},\"runtime_matcher\":{}}}",
+                    json_str(s), json_str(&re), json_str(w), jopt(a), jopt(c)
                 )
                 .unwrap();
                 n_findings += 1;
